@@ -39,6 +39,7 @@ def child_main(argv: list[str]) -> int:
         shard = json.load(f)
     rec = Rec(pid)
     t0 = time.time()
+    rec.cls("interpreter:" + shard.get("config", "default"))
     try:
         prop = load_prop(pid)
         if shard.get("__replay__"):
@@ -49,6 +50,8 @@ def child_main(argv: list[str]) -> int:
         rec.inconc(f"harness error in shard {shard.get('name')}: {type(e).__name__}: {e}")
         rec.diag(traceback.format_exc()[-3000:])
     out = rec.dump()
+    if shard.get("config"):  # a clone repeats a slice of an enumeration: its cases are not new ones
+        out["disjoint"] = 0
     out["wall_s"] = time.time() - t0
     out["shard"] = shard.get("name")
     with open(out_file, "w") as f:
@@ -57,6 +60,49 @@ def child_main(argv: list[str]) -> int:
 
 
 # ----------------------------------------------------------------------------------------- parent
+# Interpreter configurations (DESIGN §12, round 8): "for every input" does not stop at the interpreter's defaults. A few shards
+# of every check are run a second time under `python -O` (asserts and `if __debug__:` blocks vanish), under `python -OO`
+# (docstrings vanish too) and under an ASCII locale without UTF-8 mode (the default text encoding of `open()` is ASCII).
+# The clones run the same workload with the same oracles; which shards are cloned rotates with the seed.
+CONFIGS = [
+    ("-O", {"pyflags": ["-O"]}),
+    ("ascii-locale", {"env": {"LC_ALL": "C", "LANG": "C", "PYTHONUTF8": "0", "PYTHONCOERCECLOCALE": "0"}}),
+    ("-OO", {"pyflags": ["-OO"]}),
+]
+
+
+def config_variants(pid: str, shards: list[dict], seed: int, tier: str) -> list[dict]:
+    """one shard of every shard KIND (name without its running number) per configuration - two under -O on the thorough tier;
+    -OO, which adds little over -O, gets one shard per check. Which shard of a kind is taken rotates with the seed."""
+    import re
+
+    prop = load_prop(pid)
+    if getattr(prop, "OWN_CONFIGS", False) or not shards:  # C20 starts its own interpreters and rotates the options itself
+        return []
+    kinds: dict[str, list[dict]] = {}
+    for s in shards:
+        kinds.setdefault(re.sub(r"[-_]?\d+$", "", str(s.get("name"))), []).append(s)
+    out = []
+    for k, (name, cfg) in enumerate(CONFIGS):
+        chosen = []
+        for kind, members in sorted(kinds.items()):
+            per = 2 if (name == "-O" and tier == "thorough") else 1
+            for j in range(min(per, len(members))):
+                chosen.append(members[(seed * 7 + k * 5 + j * 3 + int(pid[1:])) % len(members)])
+        if name == "-OO":
+            chosen = chosen[(seed + int(pid[1:])) % len(chosen):][:1]
+        for src in chosen:
+            s = dict(src)
+            s["name"] = f"{src.get('name')}@{name}"
+            s["config"] = name
+            if "pyflags" in cfg:
+                s["pyflags"] = cfg["pyflags"]
+            if "env" in cfg:
+                s["env"] = dict(src.get("env") or {}, **cfg["env"])
+            out.append(s)
+    return out
+
+
 GRACE_AFTER_VIOLATION = float(os.environ.get("VMON_GRACE", "25"))
 
 
@@ -81,7 +127,7 @@ def run_children(pid: str, tier: str, seed: int, shards: list[dict], watchdog: f
         of = os.path.join(work, f"o{i}.json")
         with open(sf, "w") as f:
             json.dump(shard, f)
-        cmd = [env.PY, "-m", "vmon.runner", "--child", pid, tier, str(seed), sf, of]
+        cmd = [env.PY, *shard.get("pyflags", []), "-m", "vmon.runner", "--child", pid, tier, str(seed), sf, of]
         extra = dict(shard.get("env") or {})
         errf = open(os.path.join(work, f"e{i}.txt"), "w+")
         p = subprocess.Popen(cmd, env=env.child_env(extra), cwd=env.VERIF, stdout=subprocess.DEVNULL, stderr=errf, text=True)
@@ -245,6 +291,7 @@ def main(argv: list[str]) -> int:
         return 2
     os.environ["VERIF_TIER"] = tier
     shards = prop.shards(tier, seed)
+    shards = shards + config_variants(pid, shards, seed, tier)
     watchdog = getattr(prop, "WATCHDOG", {"quick": 900, "thorough": 5400})[tier]
     agg = merge(run_children(pid, tier, seed, shards, watchdog))
 
